@@ -1,8 +1,54 @@
+(** C14 — DAG diff applied to the source reproduces the target.
+    This file contains ONLY the property theorems, each closed by [exact] of a
+    lemma of proofs/P_C14.v, with [Print Assumptions] beneath it.
+
+    Model: model/M_C14.v — [diff] and [apply_list] are transcriptions of
+    dagutils.Diff and dagutils.ApplyChange (with the Editor's InsertNodeAtPath /
+    RmLink) on dag-pb trees with Merkle identity (same CID iff structurally equal);
+    tied to /repo on every run by ./check C14.
+    [wf t]: a dag-pb tree — every node a ProtoNode, link names non-empty, links in
+    the canonical (strictly name-sorted, hence duplicate-free) order of the encoding.
+    [tdata a = tdata b]: both roots are directories (same Data). *)
 From Coq Require Import List ZArith Bool.
-From V Require Import lib.Verdict lib.C11_DagPb model.M_C14 proofs.P_C14.
+From V Require Import lib.Verdict lib.C11_DagPb model.M_C14 proofs.P_C14_map proofs.P_C14.
 Import ListNotations.
 Open Scope Z_scope.
 
+(** For ALL dag-pb trees a, b (any depth, any fan-out): applying Diff(a, b) to a
+    gives exactly b — for the Diff that also compares the Data of the two nodes
+    it is about to recurse into (defect switch off). *)
+Theorem C14_apply_diff : forall a b, wf a -> wf b -> tdata a = tdata b ->
+  apply_list a (diff false a b) = Some b.
+Proof. exact apply_diff_off. Qed.
+Print Assumptions C14_apply_diff.
+
+(** The current code (switch on) is right for ALL pairs in which no name changes
+    the Data of a node that Diff recurses into ([compat]: e.g. every pair in which
+    each common path is a directory on both sides or a link-less file on both sides). *)
+Theorem C14_apply_diff_current : forall a b, wf a -> wf b -> tdata a = tdata b ->
+  compat a b = true ->
+  apply_list a (diff true a b) = Some b.
+Proof. exact apply_diff_current. Qed.
+Print Assumptions C14_apply_diff_current.
+
+(** Diff(a, a) is empty — both variants, every tree (also with raw leaves). *)
+Theorem C14_diff_refl : forall fl a, diff fl a a = [].
+Proof. exact diff_refl. Qed.
+Print Assumptions C14_diff_refl.
+
+(** ... and an empty Diff means equal trees. *)
+Theorem C14_diff_nil_eq : forall a b, wf a -> wf b -> tdata a = tdata b ->
+  diff false a b = [] -> a = b.
+Proof. exact diff_nil_off. Qed.
+Print Assumptions C14_diff_nil_eq.
+
+(** the boolean well-formedness check evaluated in the correspondence implies [wf] *)
+Theorem C14_wfb_wf : forall t, wfb t = true -> wf t.
+Proof. exact wfb_wf. Qed.
+Print Assumptions C14_wfb_wf.
+
+(** Finding C14-1 (current code): a = {x: {y: file1}}, b = {x: file2}.  Diff emits
+    only [Remove x/y]; the result {x: {}} is not b.  The repaired Diff is right on it. *)
 Theorem C14_kind_change_refuted :
   wfb wit_a = true /\ wfb wit_b = true /\ tdata wit_a = tdata wit_b /\
   apply_list wit_a (diff true wit_a wit_b) = Some (PB 0 [([120], PB 0 [])]) /\
@@ -10,3 +56,15 @@ Theorem C14_kind_change_refuted :
   apply_list wit_a (diff false wit_a wit_b) = Some wit_b.
 Proof. exact kind_change_refuted. Qed.
 Print Assumptions C14_kind_change_refuted.
+
+(** ---------- non-vacuity ---------- *)
+Definition ex_a : tree :=
+  PB 0 [([97], PB 1 []); ([98], PB 0 [([120], PB 2 []); ([121], PB 0 [([122], PB 3 [])])]); ([99], PB 4 [])].
+Definition ex_b : tree :=
+  PB 0 [([97], PB 1 []); ([98], PB 0 [([120], PB 5 []); ([121], PB 0 [([110], PB 6 []); ([122], PB 3 [])])]); ([100], PB 4 [])].
+
+Example C14_ex : wfb ex_a = true /\ wfb ex_b = true /\ compat ex_a ex_b = true /\
+  map (fun c => (c_type c, c_path c)) (diff true ex_a ex_b) =
+    [(CMod, [[98]; [120]]); (CAdd, [[98]; [121]; [110]]); (CRemove, [[99]]); (CAdd, [[100]])] /\
+  apply_list ex_a (diff true ex_a ex_b) = Some ex_b.
+Proof. vm_compute. repeat split; reflexivity. Qed.
